@@ -172,7 +172,8 @@ pub fn linearizable(init: u32, recs: &[Rec], final_val: u32) -> bool {
 // ---------------------------------------------------------------------------
 
 pub fn child(name: &str, bound: i64) {
-    let Some(e) = cat::CATALOGUE.iter().find(|e| e.name == name) else {
+    let cat = cat::catalogue();
+    let Some(e) = cat.into_iter().find(|e| e.name == name) else {
         eprintln!("unknown harness {name}");
         std::process::exit(2);
     };
@@ -187,7 +188,7 @@ pub fn child(name: &str, bound: i64) {
     let body = e.body;
     b.check(move || {
         ITERS.fetch_add(1, Ordering::SeqCst);
-        body();
+        (body)();
     });
     let outcomes = OUTCOMES.lock().unwrap().clone();
     let v = serde_json::json!({"harness": name, "schedules": ITERS.load(Ordering::SeqCst), "outcomes": outcomes, "complete": true});
